@@ -469,7 +469,10 @@ func cmdCheck(args []string) {
 	for _, f := range fails {
 		for i := range known {
 			k := &known[i]
-			if k.Property == prop && k.Status == "open" && strings.HasPrefix(stableName(f.Name), k.Obligation) {
+			// an open finding is identified by its obligation; the same function may be
+			// verified by several properties' checks (anchor files overlap), each of which
+			// reports it as known for its own property id
+			if k.Status == "open" && strings.HasPrefix(stableName(f.Name), k.Obligation) {
 				f.Known = k
 			}
 		}
